@@ -35,6 +35,17 @@ def main():
             if ok0 and bad1:
                 note = "the demonstration must run under --release (overflow checks off): it passes in the debug profile; confirmed here with cargo test --release (passes without the patch, fails with it); see notes.md"
                 m["ran"].append("cargo test --offline --release --test demo_seeded (unpatched: ok; patched: FAILED)")
+            for flags, what in ((" --no-default-features", "--no-default-features (no_std)"), (" --features extra-platforms", "--features extra-platforms (portable-atomic)"),
+                                (" --release --no-default-features", "--release --no-default-features")):
+                if note is not None:
+                    break
+                subprocess.run("patch -s -R -p1 --no-backup-if-mismatch < %s" % os.path.join(os.path.abspath(src), "patch.diff"), cwd=base, shell=True)
+                c0 = subprocess.run("cargo test --offline%s --test demo_seeded 2>&1 | tail -8" % flags, cwd=base, shell=True, capture_output=True, text=True, env=env)
+                subprocess.run("patch -s -p1 --no-backup-if-mismatch < %s" % os.path.join(os.path.abspath(src), "patch.diff"), cwd=base, shell=True)
+                c1 = subprocess.run("cargo test --offline%s --test demo_seeded 2>&1 | tail -15" % flags, cwd=base, shell=True, capture_output=True, text=True, env=env)
+                if "test result: ok" in c0.stdout and "FAILED" not in c0.stdout and ("FAILED" in c1.stdout or "panicked" in c1.stdout or "error: could not compile" in c1.stdout):
+                    note = "the demonstration must run with %s: it passes in the default debug configuration; confirmed here (passes without the patch, fails with it); see notes.md" % what
+                    m["ran"].append("cargo test --offline%s --test demo_seeded (unpatched: ok; patched: FAILED)" % flags)
             if note is None:
                 # weak-memory / aliasing faults: only Miri sees them
                 subprocess.run("git checkout -q -- . 2>/dev/null; patch -s -R -p1 --no-backup-if-mismatch < %s" % os.path.join(os.path.abspath(src), "patch.diff"), cwd=base, shell=True)
